@@ -8,8 +8,10 @@
 package json
 
 // C33: decoding any input either fails with an error or fills the point; it never panics.
-// DEFECT (defect_ecpoint_nil): the code dereferences aux.X and aux.Y without a nil test;
-// obligations #nil.* of this function fail (see /verif/notes/tlslog.md, D2).
+// DEFECT D2 (defect_ecpoint_nil), FIXED in /repo commit 6c0f10f: the code dereferenced aux.X
+// and aux.Y without a nil test, so a point without "x" or "y" (its own MarshalJSON omits y for
+// x25519 points) panicked; obligations #nil.* of this function failed. The code now tests
+// both members and all obligations discharge (see /verif/notes/tlslog.md, D2).
 //@ func (*ECPoint).UnmarshalJSON
 //@   requires p != nil
 //@   modifies p.X, p.Y
